@@ -420,6 +420,20 @@ class Repo:
             tree = _DropLocalAnnotations().visit(tree)
             from . import normalize
 
+            # consistent renamings of locals are undone first (so that reference locals are not mistaken for new
+            # aliases), then again at indexing time for what normalisation leaves
+            def _pre(body, prefix):
+                for s_ in body:
+                    if isinstance(s_, (ast.FunctionDef, ast.AsyncFunctionDef)):
+                        mp = undo_local_renames(f"{prefix}.{s_.name}", s_)
+                        if mp:
+                            self.renamed_back[f"{prefix}.{s_.name}"] = mp
+                    elif isinstance(s_, ast.ClassDef):
+                        _pre(s_.body, f"{prefix}.{s_.name}")
+                    elif isinstance(s_, (ast.If, ast.Try)):
+                        _pre(s_.body, prefix)
+
+            _pre(tree.body, modname)
             for line in normalize.normalize_tree(tree, modname, names_table()):
                 self.normalized.append(line)
             assign_order(tree)
